@@ -5,6 +5,8 @@ Local Open Scope N_scope.
 
 Definition edit_of (s : store) (i : nat) : N := match nth_error s i with Some c => p_edit (c_pack c) | None => 0 end.
 
+Definition create_of (s : store) (i : nat) : N := match nth_error s i with Some c => p_create (c_pack c) | None => 0 end.
+
 Record replica := { heads : list nat; clk : N; cclk : N }.
 Record world := { st : store; eidf : nat -> nat; reps : list replica; budget : N (* number of clock increments so far *) }.
 
@@ -18,7 +20,9 @@ Inductive action :=
 | AEdit (r : nat) (h : nat) (id au : N) (ops : list N)
 | AAdopt (r : nat) (t : nat)                (* merge scenario 1 / fast-forward target becomes a head *)
 | AFF (r : nat) (h t : nat)                 (* scenario 4 *)
-| AMerge (r : nat) (h t : nat) (id au : N). (* scenario 5 *)
+| AMerge (r : nat) (h t : nat) (id au : N)  (* scenario 5 *)
+| AWitness (r : nat) (t : nat)              (* a read of the history headed by t: clocks are witnessed, refs untouched *)
+| ARemove (r : nat) (h : nat).              (* the local ref of h is deleted *)
 
 Definition step (w : world) (a : action) : option world :=
   let s := st w in let n := length s in
@@ -42,13 +46,13 @@ Definition step (w : world) (a : action) : option world :=
     match nth_error (reps w) r with None => None | Some rp =>
       if negb (Nat.ltb t n) then None else
       Some {| st := s; eidf := eidf w;
-              reps := set_nth r {| heads := heads rp ++ [t]; clk := N.max (clk rp) (edit_of s t); cclk := cclk rp |} (reps w);
+              reps := set_nth r {| heads := heads rp ++ [t]; clk := N.max (clk rp) (edit_of s t); cclk := N.max (cclk rp) (create_of s (eidf w t)) |} (reps w);
               budget := budget w |} end
   | AFF r h t =>
     match nth_error (reps w) r with None => None | Some rp =>
       if negb (Nat.ltb t n) then None else
       Some {| st := s; eidf := eidf w;
-              reps := set_nth r {| heads := replace_head h t (heads rp); clk := N.max (clk rp) (edit_of s t); cclk := cclk rp |} (reps w);
+              reps := set_nth r {| heads := replace_head h t (heads rp); clk := N.max (clk rp) (edit_of s t); cclk := N.max (cclk rp) (create_of s (eidf w t)) |} (reps w);
               budget := budget w |} end
   | AMerge r h t id au =>
     match nth_error (reps w) r with None => None | Some rp =>
@@ -56,8 +60,19 @@ Definition step (w : world) (a : action) : option world :=
       let e := N.max (clk rp) (edit_of s t) + 1 in
       Some {| st := s ++ [{| c_parents := [h; t]; c_pack := mkpack id au [] e 0 |}];
               eidf := upd (eidf w) n (eidf w h);
-              reps := set_nth r {| heads := replace_head h n (heads rp); clk := e; cclk := cclk rp |} (reps w);
+              reps := set_nth r {| heads := replace_head h n (heads rp); clk := e; cclk := N.max (cclk rp) (create_of s (eidf w t)) |} (reps w);
               budget := budget w + 1 |} end
+  | AWitness r t =>
+    match nth_error (reps w) r with None => None | Some rp =>
+      if negb (Nat.ltb t n) then None else
+      Some {| st := s; eidf := eidf w;
+              reps := set_nth r {| heads := heads rp; clk := N.max (clk rp) (edit_of s t); cclk := N.max (cclk rp) (create_of s (eidf w t)) |} (reps w);
+              budget := budget w |} end
+  | ARemove r h =>
+    match nth_error (reps w) r with None => None | Some rp =>
+      Some {| st := s; eidf := eidf w;
+              reps := set_nth r {| heads := filter (fun x => negb (Nat.eqb x h)) (heads rp); clk := clk rp; cclk := cclk rp |} (reps w);
+              budget := budget w |} end
   end.
 
 Definition inv (w : world) : Prop :=
@@ -125,7 +140,7 @@ Ltac old_head Hh2 :=
 
 Theorem inv_step w a w' : inv w -> budget w + 2 <= jump_limit -> step w a = Some w' -> inv w'.
 Proof.
-  intros (G & Hh & Hb & Hc) Bud Hs. destruct a as [r id au ops|r h id au ops|r t|r h t|r h t id au]; cbn [step] in Hs;
+  intros (G & Hh & Hb & Hc) Bud Hs. destruct a as [r id au ops|r h id au ops|r t|r h t|r h t id au|r t|r h]; cbn [step] in Hs;
   destruct (nth_error (reps w) r) as [rp|] eqn:Er; try discriminate; pose proof (nth_error_In _ _ Er) as Hrp;
   pose proof (Hc rp Hrp) as Hcr.
   - (* create *)
@@ -184,6 +199,17 @@ Proof.
       * rewrite edit_of_app_new. cbn. lia.
       * rewrite edit_of_app_old by lia. specialize (Hb i). lia.
     + intros rp' Hin. apply In_set_nth in Hin as [->|Hin]; cbn [clk]; [lia|]. specialize (Hc rp' Hin). lia.
+  - (* witness *)
+    destruct (Nat.ltb_spec t (length (st w))) as [Lt|]; cbn in Hs; [|discriminate].
+    inversion Hs; subst; clear Hs. unfold inv; cbn [st eidf reps budget]. split; [exact G|split; [|split; [exact Hb|]]].
+    + intros rp' x Hin Hx. apply In_set_nth in Hin as [->|Hin]; cbn [heads clk] in *; [|now apply Hh].
+      destruct (Hh rp x Hrp Hx); split; auto; lia.
+    + intros rp' Hin. apply In_set_nth in Hin as [->|Hin]; cbn [clk]; [|now apply Hc]. specialize (Hb t Lt). lia.
+  - (* remove *)
+    inversion Hs; subst; clear Hs. unfold inv; cbn [st eidf reps budget]. split; [exact G|split; [|split; [exact Hb|]]].
+    + intros rp' x Hin Hx. apply In_set_nth in Hin as [->|Hin]; cbn [heads clk] in *; [|now apply Hh].
+      apply filter_In in Hx as [Hx _]. now apply Hh.
+    + intros rp' Hin. apply In_set_nth in Hin as [->|Hin]; cbn [clk]; [|now apply Hc]. exact Hcr.
 Qed.
 Print Assumptions inv_step.
 
